@@ -201,7 +201,8 @@ public:
       bufferStart = bufferEnd = buffer ? buffer : (byte*)&_capacity;
     else
       bufferEnd -= size;
-    *bufferEnd = 0;
+    if(buffer)
+      *bufferEnd = 0;
   }
 
   usize size() const {return bufferEnd - bufferStart;}
